@@ -37,13 +37,19 @@ def outcome(entry, text):
             from jaqalpaq.parser import parse_jaqal_string
 
             c = parse_jaqal_string(text, autoload_pulses=True, import_path=PULSE_DIR)
+        elif entry == "parse-alt":
+            from jaqalpaq.parser import parse_jaqal_string
+
+            c = parse_jaqal_string(text, autoload_pulses=True, import_path=os.path.join(PULSE_DIR, "alt"))
+        elif entry in ("parse-file", "run-file"):
+            return _file_outcome(entry, text)
         elif entry == "run":
             import numpy
             from jaqalpaq.emulator import run_jaqal_string
 
             numpy.random.seed(11)
             r = run_jaqal_string(text, import_path=PULSE_DIR)
-            return ["ok", [[round(float(x), 9) for x in sc.simulated_probability_by_int] for sc in r.subcircuits], [x.as_int for x in r.readouts]]
+            return _run_result(r)
         else:
             raise ValueError(entry)
         from jaqalpaq.generator import generate_jaqal_program
@@ -53,6 +59,57 @@ def outcome(entry, text):
         except Exception as e:  # noqa: BLE001 - outcome recording
             t = f"<generate raised {type(e).__name__}>"
         return ["ok", t, repr(c)]
+    except BaseException as e:  # noqa: BLE001 - outcome recording
+        if type(e).__name__ in ("BudgetExceeded", "KeyboardInterrupt", "HarnessError"):
+            raise
+        from jaqalpaq.error import JaqalError
+
+        pos = None
+        if hasattr(e, "line") and hasattr(e, "column"):
+            pos = [e.line, e.column]
+        return ["err", type(e).__name__, isinstance(e, JaqalError), str(e)[:300], pos]
+
+
+def _run_result(r):
+    return ["ok", [[round(float(x), 9) for x in sc.simulated_probability_by_int] for sc in r.subcircuits], [x.as_int for x in r.readouts]]
+
+
+def _file_outcome(entry, text):
+    """The file entry points: the program is written next to copies of the pulse modules, so
+    that the documented default import path (the file's directory) is what resolves relative
+    imports.  The temporary directory's name is masked in the outcome."""
+    import shutil
+    import tempfile
+
+    d = tempfile.mkdtemp(prefix="vlibc16_")
+    try:
+        shutil.copytree(PULSE_DIR, os.path.join(d, "p"), ignore=shutil.ignore_patterns("__pycache__"))
+        fname = os.path.join(d, "p", "prog.jaqal")
+        with open(fname, "w", encoding="utf-8", newline="") as fd:
+            fd.write(text)
+        out = _file_call(entry, fname)
+        return [x.replace(d, "<DIR>") if isinstance(x, str) else x for x in out]
+    finally:
+        shutil.rmtree(d, ignore_errors=True)
+
+
+def _file_call(entry, fname):
+    try:
+        if entry == "parse-file":
+            from jaqalpaq.parser import parse_jaqal_file
+            from jaqalpaq.generator import generate_jaqal_program
+
+            c = parse_jaqal_file(fname, autoload_pulses=True)
+            try:
+                t = generate_jaqal_program(c)
+            except Exception as e:  # noqa: BLE001 - outcome recording
+                t = f"<generate raised {type(e).__name__}>"
+            return ["ok", t, repr(c)]
+        import numpy
+        from jaqalpaq.emulator import run_jaqal_file
+
+        numpy.random.seed(11)
+        return _run_result(run_jaqal_file(fname))
     except BaseException as e:  # noqa: BLE001 - outcome recording
         if type(e).__name__ in ("BudgetExceeded", "KeyboardInterrupt", "HarnessError"):
             raise
